@@ -136,7 +136,7 @@ func genC07Case(rt *rapid.T) *c07Case {
 	if rapid.IntRange(0, 6).Draw(rt, "presetMetadata") == 0 {
 		// the bank module already knows display metadata for the L2 denom (e.g. from bank genesis)
 		d := tcL2Denom(tc, "uinit")
-		l2.BK.SetDenomMetaData(l2.Ctx, banktypes.Metadata{Base: d, Display: d, Name: "preset", Symbol: "PRE", DenomUnits: []*banktypes.DenomUnit{{Denom: d, Exponent: 0}}})
+		presetBankMetadata(rt, l2, d)
 		cs.desc += "bank-metadata-preset;"
 	}
 	cs.hookMaxGas = rapid.SampledFrom([]uint64{opchildtypes.DefaultHookMaxGas, opchildtypes.DefaultHookMaxGas, opchildtypes.DefaultHookMaxGas, 0, 1, 500, 5_000, 50_000}).Draw(rt, "hookMaxGas")
@@ -368,15 +368,7 @@ func genC07Case(rt *rapid.T) *c07Case {
 	case "multibyte-error":
 		// a well-formed transaction envelope whose only message has an unregistered type URL made of four-byte
 		// characters: the decode error echoes it, so the failure reason is long in bytes and short in characters
-		body, err := (&txtypes.TxBody{Messages: []*codectypes.Any{{TypeUrl: "/" + strings.Repeat("\U0001F600", rapid.IntRange(20, 40).Draw(rt, "emoji"))}}}).Marshal()
-		if err != nil {
-			panic(err)
-		}
-		auth, _ := (&txtypes.AuthInfo{Fee: &txtypes.Fee{}}).Marshal()
-		data, err = (&txtypes.TxRaw{BodyBytes: body, AuthInfoBytes: auth}).Marshal()
-		if err != nil {
-			panic(err)
-		}
+		data = multibyteHookData(rapid.IntRange(20, 40).Draw(rt, "emoji"))
 	case "handler-runtime-error":
 		// a well-signed hook whose message handler hits a Go runtime error (not an explicit panic, not out of
 		// gas): the L2 admin batches a parameter update without parameters, whose validation dereferences nil
@@ -708,6 +700,16 @@ func c07Run(rt *rapid.T, rec *evid.Rec, withFaults bool) {
 		if cs.expect != "either" && outcome != cs.expect {
 			rt.Fatalf("C07 violated: outcome %s, the statement requires %s (events: %s)\ncase: %s", outcome, cs.expect, henv.RenderEvents(r.Events), cs.desc)
 		}
+		// "only the hook signer's account sequence is consumed": a well-signed hook that passed the signature checks
+		// and failed at one of its messages has used up the sequence number it was signed for (its bytes are public
+		// on L1 and must not be executable later, attached to another deposit)
+		if outcome == "B" && (cs.payload == "fail-k" || cs.payload == "withdraw-then-fail") && cs.hookMaxGas == opchildtypes.DefaultHookMaxGas && cs.toAddr != nil && !cs.blocked {
+			_, seq0 := accInfo(l2, cs.signer)
+			if _, seq1 := accInfo(b, cs.signer); seq1 != seq0+1 {
+				rt.Fatalf("C07 violated: a well-signed hook failed at one of its messages; the signer's account sequence went %d -> %d (the statement: it is consumed), so the same bytes can be executed with a later deposit\ncase: %s", seq0, seq1, cs.desc)
+			}
+			c.Class("failed-hook-consumed-its-signers-sequence")
+		}
 		if err := cs.liveness(b); err != nil {
 			rt.Fatalf("C07 violated (bridge blocked after the deposit): %v\ncase: %s", err, cs.desc)
 		}
@@ -833,4 +835,20 @@ func TestC07Denoms(t *testing.T) {
 		c.Shape(fmt.Sprintf("denoms/%d", n))
 		c.Done()
 	})
+}
+
+// multibyteHookData is a well-formed transaction envelope whose only message has an unregistered type URL made
+// of n four-byte characters: the decode error echoes it, so the hook's failure reason is long in bytes and
+// short in characters.
+func multibyteHookData(n int) []byte {
+	body, err := (&txtypes.TxBody{Messages: []*codectypes.Any{{TypeUrl: "/" + strings.Repeat("\U0001F600", n)}}}).Marshal()
+	if err != nil {
+		panic(err)
+	}
+	auth, _ := (&txtypes.AuthInfo{Fee: &txtypes.Fee{}}).Marshal()
+	data, err := (&txtypes.TxRaw{BodyBytes: body, AuthInfoBytes: auth}).Marshal()
+	if err != nil {
+		panic(err)
+	}
+	return data
 }
